@@ -16,6 +16,32 @@ def unit_script(rng, total, unsub_at=None):
     return evs
 
 
+def systematic_scripts(head):
+    """ready immediately / pending k polls / error at position i / empty / never."""
+    res = head.endswith("res")
+    out = []
+    if head.startswith("future"):
+        for k in range(4):
+            out.append([["pending"]] * k + [["ready", "7"]])
+            if res:
+                out.append([["pending"]] * k + [["err", "3"]])
+        out += [[], [["pending"]], [["hang"]], [["pending"], ["hang"]]]
+        return out
+    for n in range(4):
+        vals = [["ready", str(i + 1)] for i in range(n)]
+        out.append(list(vals))
+        for k in (1, 2):
+            for at in range(n + 1):                   # k pending polls before item `at` (or before the end)
+                out.append(vals[:at] + [["pending"]] * k + vals[at:])
+            out.append([x for v in vals for x in ([["pending"]] * k + [v])] + [["pending"]] * k)
+        if res:
+            for at in range(n + 1):                   # error at position `at`
+                out.append(vals[:at] + [["err", "5"]] + vals[at:])
+                out.append(vals[:at] + [["pending"], ["err", "5"]] + vals[at:])
+    out.append([["ready", "1"], ["hang"], ["ready", "2"]])
+    return out
+
+
 class C08(Prop):
     pid = "C08"
     lean_module = "RxModel.Props.C08"
@@ -25,9 +51,18 @@ class C08(Prop):
             "each; (b) jumps over several periods, fire/poll in arbitrary order, late executors. Full line "
             "compared. Oracle on the implementation: values 0,1,2,… consecutive; tick k never before "
             "subscription+(k+1)·period (interval_at: instant+k·period), consecutive ticks at least one period "
-            "apart; under (a) exactly on time; timer: its item once, not before due, then complete.")
-    assumptions = ["virtual clock; harness executor behind hook H1; from_future/from_stream are exercised by the "
-                   "`async` cases when present"]
+            "apart; under (a) exactly on time; timer: its item once, not before due, then complete. "
+            "Async sources: from_future / from_future_result / from_stream / from_stream_result over scripted "
+            "futures and streams (ready immediately, pending k polls with a self-wake, error at position i, empty, "
+            "never resolving), systematically under the prompt FIFO schedule and with every number of single polls "
+            "before a run, randomly under arbitrary poll/run/adv/fire orders and with unsubscription. Oracle on "
+            "the implementation (read off the script alone): what is delivered is a prefix of `scripted values up "
+            "to the first Err, then complete / that error`, nothing after the terminal or after unsubscribe, "
+            "everything is there once the executor has run until idle, a future delivers its single value then "
+            "complete, the task is gone from the executor with the terminal.")
+    assumptions = ["virtual clock; harness executor behind hook H1; scripted futures/streams: a `pending` step "
+                   "answers Poll::Pending once and wakes its task at once (harness/src/ascript.rs); early-terminating "
+                   "operators above a stream are C16's population (DESIGN §7 finding 18)"]
     modelled_not_verified = "all Rust code incl. the async state machine of schedule() and RepeatTask::poll"
 
     def cases(self, tier, seed):
@@ -46,6 +81,7 @@ class C08(Prop):
                 for head in ("timer", "timerat"):
                     out.append(Case("time", "local", [("pipe", [[head, "7", str(d)]])],
                                     unit_script(rng, d + 3), {"kind": "prompt", "src": head}))
+        out += self.async_cases(rng, tier)
         n = 3000 if tier == "quick" else 30000
         for _ in range(n):
             src = tg.sources(rng, ["interval", "intervalat", "timer", "timerat"])
@@ -59,8 +95,83 @@ class C08(Prop):
                             {"kind": mode, "src": src[0]}))
         return out
 
+    def async_cases(self, rng, tier):
+        out = []
+        # (a) systematic scripts: prompt FIFO schedule, and j single polls of the task before the run
+        for head in tg.ASYNC_HEADS:
+            for sc in systematic_scripts(head):
+                src = [head] + sc
+                npend = sum(1 for st in sc if st[0] == "pending")
+                for fl in ("local", "threads"):
+                    out.append(Case("time", fl, [("pipe", [src])],
+                                    [["sub"], ["run"], ["q", "closed"], ["q", "pulls"], ["adv", "1"], ["run"]],
+                                    {"kind": "async-prompt", "src": head}))
+                for j in range(1, npend + 3):
+                    out.append(Case("time", "local", [("pipe", [src])],
+                                    [["sub"]] + [["poll", "0"]] * j + [["q", "closed"], ["run"], ["q", "closed"]],
+                                    {"kind": "async-polls", "src": head}))
+                # unsubscribe after j polls: nothing more may arrive
+                for j in range(0, npend + 1):
+                    out.append(Case("time", "local", [("pipe", [src])],
+                                    [["sub"]] + [["poll", "0"]] * j + [["unsub"], ["q", "closed"], ["run"], ["poll", "0"]],
+                                    {"kind": "async-unsub", "src": head}))
+        # (b) random scripts, arbitrary executor orders, operators that do not end the stream on top
+        n = 2500 if tier == "quick" else 25000
+        for _ in range(n):
+            src = tg.async_source(rng)
+            pipe = src
+            if rng.random() < 0.35:
+                pipe = rng.choice([["map", "add1"], ["skip", "1"], ["filter", "even"], ["scan", "add", "0"],
+                                   ["last"], ["bufcount", "2"], ["delay", "2"], ["observeon"]]) + [pipe]
+            mode = rng.choice(["fifo", "mixed", "mixed"])
+            evs = tg.events(rng, rng.randint(2, 10), hot=False, mode=mode, unsub_p=0.06)
+            if rng.random() < 0.7:
+                evs.append(["run"])
+            out.append(Case("time", rng.choice(["local", "threads"]), [("pipe", [pipe])], evs,
+                            {"kind": "async-" + mode, "src": src[0]}))
+        return out
+
+    def async_oracle(self, case, lines):
+        src = case.field("pipe")[0]
+        want, ends = tg.async_expected(src)
+        got = []
+        unsub = False
+        term_seen = False
+        for k, e in enumerate(case.events):
+            b = lines.get(k)
+            if b == "PANIC":
+                return {"kind": "panic", "event": k, "detail": b}
+            if b is not None and b.startswith("closed=") and term_seen and b != "closed=1":
+                return {"kind": "async-open-after-terminal", "event": k, "detail": b}
+            if b is None or not b.startswith("o="):
+                continue
+            outs, kv = tg.parse_suffix(b)
+            if e[0] == "unsub":
+                unsub = True
+            if outs and unsub:
+                return {"kind": "delivery-after-unsubscribe", "event": k, "detail": b}
+            if outs and term_seen:
+                return {"kind": "async-delivery-after-terminal", "event": k, "detail": b}
+            got += outs
+            if got != want[:len(got)]:
+                return {"kind": "async-relay", "event": k,
+                        "detail": f"delivered {got}, the script promises {want}"}
+            if any(o == "C" or o.startswith("E") for o in outs):
+                term_seen = True
+                if kv.get("live", 0) != 0:
+                    return {"kind": "async-task-survives-terminal", "event": k, "detail": b}
+            if e[0] == "run":
+                if not unsub and got != want:
+                    return {"kind": "async-incomplete", "event": k,
+                            "detail": f"executor ran until idle: delivered {got}, the script promises {want}"}
+                if not unsub and ends and kv.get("live", 0) != 0:
+                    return {"kind": "async-task-survives-terminal", "event": k, "detail": b}
+        return None
+
     def oracle(self, case, lines, model_lines=None):
         pipe = case.field("pipe")[0]
+        if pipe[0] in tg.ASYNC_HEADS:
+            return self.async_oracle(case, lines)
         if pipe[0] not in ("interval", "intervalat", "timer", "timerat"):
             return None          # with operators on top only the correspondence is checked
         prompt = case.meta.get("kind") == "prompt"
@@ -124,8 +235,10 @@ class C08(Prop):
         return f"{failure['kind']}|time|{case.field('pipe')[0][0]}"
 
     def shrink_candidates(self, case):
-        return [c for c in tg.time_shrink(case)
-                if c.field("pipe")[0][0] == case.field("pipe")[0][0]]
+        cands = [c for c in tg.time_shrink(case)
+                 if c.field("pipe")[0][0] == case.field("pipe")[0][0]]
+        cands += tg.script_shrink(case)
+        return cands
 
 
 PROP = C08()
